@@ -340,18 +340,33 @@ impl Variant {
 
     /// Divides like the `/` operator of the language does: the result is always
     /// a floating point value (a double if a double or long operand is involved,
-    /// a single otherwise), even if it happens to be a whole number.
+    /// a single otherwise), even if it happens to be a whole number, and however
+    /// small it is.
     pub fn divide_fp(self, other: Self) -> Result<Self, VariantError> {
         let is_double = matches!(self, Self::VDouble(_) | Self::VLong(_))
             || matches!(other, Self::VDouble(_) | Self::VLong(_));
-        self.divide(other).map(|result| match result {
-            Self::VInteger(i) if is_double => Self::VDouble(i as f64),
-            Self::VInteger(i) => Self::VSingle(i as f32),
-            Self::VLong(l) if is_double => Self::VDouble(l as f64),
-            Self::VLong(l) => Self::VSingle(l as f32),
-            Self::VSingle(f) if is_double => Self::VDouble(f as f64),
-            _ => result,
-        })
+        match (self.as_f64(), other.as_f64()) {
+            (Some(nom), Some(div)) => {
+                if div == 0.0 {
+                    Err(VariantError::DivisionByZero)
+                } else if is_double {
+                    Ok(Self::VDouble(nom / div))
+                } else {
+                    Ok(Self::VSingle(nom as f32 / div as f32))
+                }
+            }
+            _ => Err(VariantError::TypeMismatch),
+        }
+    }
+
+    fn as_f64(&self) -> Option<f64> {
+        match self {
+            Self::VSingle(f) => Some(*f as f64),
+            Self::VDouble(d) => Some(*d),
+            Self::VInteger(i) => Some(*i as f64),
+            Self::VLong(l) => Some(*l as f64),
+            _ => None,
+        }
     }
 
     pub fn modulo(self, other: Self) -> Result<Self, VariantError> {
